@@ -145,6 +145,7 @@ class Real:
         self.ioloop = self.loops[0]
         self.weblog = []
         self.wslog = []
+        self.ws_containers = {}     # id(mutable object handed to .ws.m) -> message it was handed for
         self.slow_on = False
         self.next_id = 1          # corpus cases use ids >= 900000
         k = self.klong
@@ -164,13 +165,15 @@ class Real:
             return 0
 
         def wsrec(x, y, z):
-            self.wslog.append((int(x), y, z))
+            # (handler id, connection argument, the very object handed over, deep snapshot taken at hand-over)
+            self.wslog.append((int(x), y, z, cj(z)))
             return 0
 
         k["rec"] = rec
         k["boom"] = boom
         k["slow"] = slow
         k["wsrec"] = wsrec
+        k["isdict"] = lambda x: 1 if isinstance(x, dict) else 0
         k["pyh"] = lambda x: "python handler"
         k('.py("klongpy.web")')
         k('.py("klongpy.ws")')
@@ -807,26 +810,81 @@ def wait_until(pred, timeout=WAIT):
     return pred()
 
 
+def gen_object(rng):
+    for _ in range(50):
+        v = gen_json(rng, depth=1)
+        if isinstance(v, dict) and v:
+            return v
+    return {"sym": "ABC", "px": 101}
+
+
 def gen_ws_scenario(rng, real, n):
+    """stamp: the .ws.m handler amends every object it is handed with a sequence number (in place, as
+    Klong's `d,k,v` does) and files it in an inbox; histories then repeat byte-identical object texts"""
     evs = []
     h0 = real.fresh()
+    stamp = rng.random() < 0.5
+    pool = [json.dumps(gen_object(rng)) for _ in range(rng.choice([1, 2, 3]))]
+    pool.append(json.dumps([gen_object(rng)]))              # an object nested in an array
+    sent = []
     for _ in range(n):
-        if rng.random() < 0.12:
+        r = rng.random()
+        if r < 0.12:
             evs.append(["d", real.fresh()])
+            continue
+        if r < (0.55 if stamp else 0.22):
+            t = rng.choice(pool)                            # the same text again and again
+        elif r < 0.62 and sent:
+            t = rng.choice(sent)
         else:
-            evs.append(["m", dump(rng, gen_json(rng, top=True))])
-    return dict(kind="ws-recv", handler=h0, evs=evs)
+            t = dump(rng, gen_json(rng, top=True))
+        sent.append(t)
+        evs.append(["m", t])
+    return dict(kind="ws-recv", handler=h0, stamp=stamp, evs=evs)
+
+
+def containers(v):
+    """the mutable objects reachable from a value handed to the handler"""
+    import numpy as np
+    if isinstance(v, dict):
+        yield v
+        for x in v.values():
+            yield from containers(x)
+    elif isinstance(v, list):
+        yield v
+        for x in v:
+            yield from containers(x)
+    elif isinstance(v, np.ndarray):
+        yield v
+        if v.dtype == object:
+            for x in v.ravel():
+                yield from containers(x)
+
+
+def stamped_inbox(entries):
+    """what the stamping handler must have filed: every object message, decoded afresh, + its number"""
+    out = []
+    for _, v in entries:
+        if isinstance(v, dict):
+            out.append(dict(v, seq=len(out) + 1))
+    return out
 
 
 def run_ws_recv(ctx, real, hl, drv, sc):
     k = real.klong
     srv = WsServer(hl)
     nc = None
-    case = dict(kind="ws-recv", handler=sc["handler"], evs=[])
+    stamp = bool(sc.get("stamp"))
+    case = dict(kind="ws-recv", handler=sc["handler"], stamp=stamp, evs=[])
     sync = 0
+
+    def hsrc(i):
+        return ("{wsrec(%d;x;y);:[isdict(y);wsfile(y);1]}" if stamp else "{wsrec(%d;x;y)}") % i
     try:
-        k("wsh::{wsrec(%d;x;y)}" % sc["handler"])
-        k(".ws.m::{wsrec(%d;x;y)}" % sc["handler"])
+        k("wsseq::0")
+        k("wsinbox::[]")
+        k('wsfile::{wsseq::wsseq+1;x,"seq",,wsseq;wsinbox::wsinbox,,x;1}')
+        k(".ws.m::" + hsrc(sc["handler"]))
         nc = k(f'wsc::.ws("ws://127.0.0.1:{srv.port}")')
         if not srv.connected.wait(WAIT):
             raise Infra("websocket client did not connect")
@@ -857,12 +915,41 @@ def run_ws_recv(ctx, real, hl, drv, sc):
             else:
                 flush()
                 cur = ev[1]
-                k(".ws.m::{wsrec(%d;x;y)}" % cur)
+                k(".ws.m::" + hsrc(cur))
                 model_evs.append(ev)
                 ctx.bump("ws:recv:redefine")
         flush()
-        got = [[i, cj(v)] for i, _, v in real.wslog[n0:]]
-        conn_ok = all(c is nc for _, c, _ in real.wslog[n0:])
+        entries = real.wslog[n0:]
+        got = [[i, snap] for i, _, _, snap in entries]          # snapshots taken at hand-over
+        conn_ok = all(c is nc for _, c, _, _ in entries)
+        # ---- no aliasing: the values handed over for different messages are independent objects
+        for n, (i, _, obj, snap) in enumerate(entries):
+            mine = list(containers(obj))
+            for c in mine:
+                if id(c) in real.ws_containers:
+                    ctx.oracle_fail("ws:recv:aliased", case, "a freshly decoded value for every message",
+                                    dict(message_index=n, value_at_hand_over=snap,
+                                         same_object_as=real.ws_containers[id(c)]),
+                                    "two messages were handed the very same mutable object (`is`): what the handler "
+                                    "does to one shows up in the other")
+                    break
+            for c in mine:
+                real.ws_containers.setdefault(id(c), dict(message_index=n, handler=i, value_at_hand_over=snap))
+        if stamp:
+            try:
+                inbox = [cj(dict(d)) for d in k("wsinbox")]
+            except Exception as e:
+                inbox = f"unreadable: {type(e).__name__}: {e}"
+            want = stamped_inbox([e for e in expected if e[1] is not None])
+            if not (isinstance(inbox, list) and same(inbox, want)):
+                ctx.oracle_fail("ws:recv:inbox", case, want, inbox,
+                                "the handler stamps each object it is handed with a running number and files it: the "
+                                "inbox must hold one separately stamped entry per object message, each the decoding of "
+                                "its own message")
+            ctx.bump("ws:recv:stamping-handler")
+            ctx.bump("ws:recv:repeated-object-texts",
+                     sum(1 for j, e in enumerate(model_evs) if e[0] == "m" and e[1].lstrip()[:1] in "{["
+                         and e in model_evs[:j]))
         # ---- property oracle: exactly once, in order, intact
         nulls = [e for e in expected if e[1] is None]
         exp_nn = [e for e in expected if e[1] is not None]
@@ -893,6 +980,9 @@ def run_ws_recv(ctx, real, hl, drv, sc):
                   and all(a[0] == b[0] and same(a[1], b[1]) for a, b in zip(mlog, got)))
             if not ok:
                 ctx.mismatch("Klong.C20.Ws.run vs NetworkClient._listen", case, mlog, got)
+            elif stamp and isinstance(inbox, list) and not same(inbox, stamped_inbox(mlog)):
+                ctx.mismatch("Klong.C20.Ws.run (each frame decoded afresh) vs the inbox kept by the stamping handler",
+                             case, stamped_inbox(mlog), inbox)
         ctx.count(("ws-recv", json.dumps(sc, sort_keys=True)))
     finally:
         try:
@@ -1170,7 +1260,7 @@ def run(ctx):
                 run_web_scenario(ctx, real, hl, drv, sc)
                 if len(ctx.oracle_failures) + len(ctx.mismatches) >= 6:
                     break
-            nws = 12 if quick else 150
+            nws = 16 if quick else 150
             for i in range(nws):
                 sc = gen_ws_scenario(ctx.rng, real, ctx.rng.randrange(3, 10 if quick else 25))
                 if i < 2:
